@@ -333,6 +333,10 @@ pub open spec fn op_resolve_ff(ds: Seq<DefV>, file: PV, cfile: PV) -> Option<Def
         },
     }
 }
+/// exec-level reading of p_plugin (a NAMED predicate: with the conjunction inlined in the closure contract the
+/// `find` postcondition sent Z3 into a matching loop)
+pub open spec fn x_ws_plugin(d: &FixtureDefinition) -> bool { d.is_plugin && !d.is_third_party }
+pub open spec fn x_third(d: &FixtureDefinition) -> bool { d.is_third_party }
 pub open spec fn is_ff_best(ds: Seq<DefV>, p: spec_fn(DefV) -> bool, i: int) -> bool {
     0 <= i < ds.len() && p(ds[i])
     && (forall|j: int| 0 <= j < ds.len() && p(#[trigger] ds[j]) ==> ff_depth(ds[j]) <= ff_depth(ds[i]))
